@@ -249,3 +249,40 @@ pub fn history_consistent(ops: &[Op]) -> bool {
     }
     down.is_empty() && vdown.is_empty()
 }
+
+/// Non-latching use of virtual keys: press/release/toggle only inside the balanced template
+/// `(multi (on-press press-vkey X) (on-release release-vkey X))`; tap, hold-for-duration and on-idle
+/// tap are fine anywhere.
+pub fn config_is_non_latching(cfg: &str) -> bool {
+    let Some(forms) = parse_top(cfg) else { return false };
+    fn ok(n: &SX, parent_balanced: bool) -> bool {
+        match n {
+            SX::A(_) => true,
+            SX::L(v) => {
+                let head = v.first().and_then(|h| h.atom()).unwrap_or("");
+                match head {
+                    "on-press" | "on-release" | "on↓" | "on↑" => {
+                        let act = v.get(1).and_then(|x| x.atom()).unwrap_or("");
+                        if act.starts_with("tap-v") {
+                            true
+                        } else {
+                            parent_balanced
+                        }
+                    }
+                    "on-press-fakekey" | "on-release-fakekey" | "on↓fakekey" | "on↑fakekey" => v.get(2).and_then(|x| x.atom()) == Some("tap"),
+                    "on-idle" | "on-idle-fakekey" => v.iter().any(|x| x.atom().map(|a| a == "tap" || a.starts_with("tap-v")).unwrap_or(false)),
+                    "multi" => {
+                        // the balanced template: exactly (multi (on-press press-vkey X) (on-release release-vkey X))
+                        let balanced = v.len() == 3
+                            && v[1].list().map(|a| a.len() == 3 && a[0].atom() == Some("on-press") && a[1].atom().map(|x| x.starts_with("press-v")).unwrap_or(false)).unwrap_or(false)
+                            && v[2].list().map(|a| a.len() == 3 && a[0].atom() == Some("on-release") && a[1].atom().map(|x| x.starts_with("release-v")).unwrap_or(false)).unwrap_or(false)
+                            && v[1].list().and_then(|a| a[2].atom()) == v[2].list().and_then(|a| a[2].atom());
+                        v[1..].iter().all(|x| ok(x, balanced))
+                    }
+                    _ => v.iter().all(|x| ok(x, false)),
+                }
+            }
+        }
+    }
+    forms.iter().all(|f| ok(f, false))
+}
